@@ -252,7 +252,7 @@ func runC09(c *Ctx) {
 		if !s.IsRunnerMethod(f) || f.Parent() != nil {
 			continue
 		}
-		if len(DirectSites(f, MapDeleteOn("d", s.FProcesses))) == 0 || len(DirectSites(f, MapUpdateOn("w", s.FProcesses))) == 0 {
+		if !s.isRenameFn(f) {
 			continue
 		}
 		nRen++
